@@ -796,6 +796,12 @@ add_flush_events(uint64_t t0, uint64_t t1)
 	post.header.clock = t1;
 	ovni_ev_set_mcv(&post, "OF]");
 
+	/* Make room for both markers first, otherwise adding them could
+	 * trigger another automatic flush and nest a second pair of markers
+	 * inside this one (large jumbo events can leave less than 24 bytes) */
+	if (rthread.evlen + 2 * sizeof(struct ovni_ev_header) >= OVNI_MAX_EV_BUF)
+		flush_evbuf();
+
 	/* Add the two flush events */
 	ovni_ev_add(&pre);
 	ovni_ev_add(&post);
